@@ -8,7 +8,7 @@ BASELINE = ("cd /repo && cargo test --workspace --no-fail-fast --offline")
 
 COMMON_NOTE = ("Trusted: Coq 8.16.1 kernel + vm_compute; the translator (data only); extraction (ExtrOcamlBasic only) and the I/O-only OCaml driver, "
                "cross-checked by an in-Coq vm_compute sample; the Rust harness, generators and comparison. The theorem is about the model; the model is tied to "
-               "/repo's working tree on every run by regenerated tables (GeneratedFacts re-proved) and by the correspondence run. ")
+               "/repo's working tree on every run by regenerated tables (the facts in Gen/Fact*.v re-proved, one file per fact) and by the correspondence run. ")
 
 CLAIMS = {
  "C01": ("proof", "Theorem C01_iterator_exact_letters: for every k in 1..=31 and every byte list over 4..255 the faithful u64 model of KmerGenerator::next equals the window specification over the property's alphabet (unbounded in length). Tied to the code by the regenerated lookup table (fact re-proved per run) and a differential run of the real iterator against model and spec.",
